@@ -553,6 +553,62 @@ func ruleIndexBound(c *eng.Ctx) {
 				}
 			})
 		}
+		if !wSeen {
+			// the widths may be produced by a generic "map with error" helper that is handed a converter closure: the
+			// slice later indexed with 0, 1, 2 is the helper's result, and every value the converter hands back
+			// without an error must be proven within 0..8 where it is returned
+			for _, h := range wCluster {
+				eng.Instrs(h, false, func(in ssa.Instruction) {
+					ia, ok := in.(*ssa.IndexAddr)
+					if !ok {
+						return
+					}
+					if k, isC := eng.ConstInt(ia.Index); !isC || k < 0 || k > 2 {
+						return
+					}
+					var call *ssa.Call
+					switch x := ia.X.(type) {
+					case *ssa.Extract:
+						call, _ = x.Tuple.(*ssa.Call)
+					case *ssa.Call:
+						call = x
+					}
+					if call == nil {
+						return
+					}
+					hf := eng.StaticCallee(call)
+					if hf == nil || !eng.InModule(hf) {
+						return
+					}
+					for _, a := range call.Call.Args {
+						var conv *ssa.Function
+						switch x := a.(type) {
+						case *ssa.MakeClosure:
+							conv, _ = x.Fn.(*ssa.Function)
+						case *ssa.Function:
+							conv = x // a function literal that captures nothing
+						}
+						if conv == nil || conv.Signature.Results().Len() != 2 || conv.Blocks == nil {
+							continue
+						}
+						for _, r := range eng.Returns(conv) {
+							if !eng.IsNilConst(r.Results[1]) {
+								continue
+							}
+							wSeen = true
+							cv, ok := r.Results[0].(*ssa.Convert)
+							if !ok {
+								wOK = false
+								continue
+							}
+							if !bounded(conv, cv.X, 0, false, r.Block(), 0) || !bounded(conv, cv.X, 8, true, r.Block(), 0) {
+								wOK = false
+							}
+						}
+					}
+				})
+			}
+		}
 		c.Check(wSeen && wOK, R, "core.(*XRefParser).parseXRefStream#W-range", fn.Pos(), "/W widths proven within 0..8", "a /W field width is used without proving 0 <= w <= 8: a negative width slices with a negative bound")
 		// all-zero check: a comparison of a sum with 0 leading to an error return
 		zero := false
@@ -1104,6 +1160,23 @@ func genericRecGuard(scc []*ssa.Function) (string, bool) {
 					if okAll || nCalls == 0 {
 						return "visited/in-progress map tested and filled in " + eng.FuncName(f), true
 					}
+					// a key that exists only for one dynamic type of the value looked at (prev, ok := x.(Int)): the
+					// insertion is rightly conditional on that type, and without the key there is no reference to follow
+					typed := false
+					eng.Instrs(f, false, func(i ssa.Instruction) {
+						mu, ok := i.(*ssa.MapUpdate)
+						if !ok || !(root(mu.Map) == m || eng.SameValue(root(mu.Map), m)) {
+							return
+						}
+						for w := range eng.Slice(mu.Key, nil) {
+							if ta, ok := w.(*ssa.TypeAssert); ok && ta.CommaOk {
+								typed = true
+							}
+						}
+					})
+					if typed {
+						return "visited/in-progress map tested and filled (for the keyed type) in " + eng.FuncName(f), true
+					}
 				}
 			}
 		}
@@ -1338,6 +1411,36 @@ func ruleRefLoops(c *eng.Ctx) {
 					}
 				}
 			})
+		}
+		if !ok {
+			// the walk along /Prev may be a tail recursion of a helper that is handed the set: the recursion rule
+			// (R2.6) then asks for the guard; here the helper only has to test and fill a map parameter
+			for _, h := range eng.Cluster(fn, 2) {
+				if h == fn || h.Pkg != fn.Pkg {
+					continue
+				}
+				selfRec := len(eng.Calls(h, false, func(_ string, ci ssa.CallInstruction) bool { return eng.StaticCallee(ci) == h })) > 0
+				steps := len(eng.CallsNamed(h, false, "core.(*XRefParser).ParsePrevXRef")) > 0
+				if !selfRec || !steps {
+					continue
+				}
+				lk, up := false, false
+				eng.Instrs(h, false, func(in ssa.Instruction) {
+					switch x := in.(type) {
+					case *ssa.Lookup:
+						if _, isPar := x.X.(*ssa.Parameter); isPar {
+							lk = true
+						}
+					case *ssa.MapUpdate:
+						if _, isPar := x.Map.(*ssa.Parameter); isPar {
+							up = true
+						}
+					}
+				})
+				if lk && up {
+					ok = true
+				}
+			}
 		}
 		c.Check(ok, R, "core.(*XRefParser).ParseAllXRefs#visited", fn.Pos(), "a visited set of /Prev offsets is tested and filled inside the loop", "the /Prev chain is followed without remembering visited offsets: a /Prev cycle loops forever")
 	}
